@@ -390,6 +390,14 @@ var LexSpecs = []*LexSpec{
 			{"num", Seq(R('0', '9'), Rep(Seq(R('0', '9'))))},
 			{"op", Alt(Seq(C('+')), Seq(C('-'), C('>')))},
 		}, SynLits: []string{"let"}, Unreferenced: []string{"id", "op"}},
+	{Name: "L14", Why: "a token with more than ten alternatives, some of several characters (item positions with two digits)",
+		Prods: []LProd{
+			{"op", Alt(Seq(C('+')), Seq(C('='), C('=')), Seq(C('-')), Seq(C('*')), Seq(C('/')), Seq(C('%')), Seq(C('<'), C('=')), Seq(C('>')), Seq(C('!'), C('=')), Seq(C('&')), Seq(C('|'), C('|')))},
+		}, SynLits: []string{"q"}},
+	{Name: "L15", Why: "a token with twelve alternatives whose second alternative has three characters",
+		Prods: []LProd{
+			{"kw", Alt(Seq(C('a')), Seq(C('x'), C('y'), C('z')), Seq(C('b')), Seq(C('c')), Seq(C('d')), Seq(C('e')), Seq(C('f')), Seq(C('g')), Seq(C('h')), Seq(C('i')), Seq(C('j')), Seq(C('k')))},
+		}, SynLits: []string{"q"}},
 	{Name: "L10", Why: "declaration order between equal patterns; token vs ignored token with the same text",
 		Prods: []LProd{
 			{"first", Seq(C('a'), C('b'))},
@@ -401,4 +409,70 @@ var LexSpecs = []*LexSpec{
 		Prods: []LProd{
 			{"any", Seq(Dot())},
 		}, SynLits: []string{"q"}},
+}
+
+// ---- host-side simulation of the reference NFA (used to search the DFA/NFA relation) -------
+
+func (n *NFA) Start() uint64 {
+	var start uint64
+	for _, s := range n.starts {
+		start |= n.eclose(s)
+	}
+	return start
+}
+
+// Step mirrors verifNFAStep of the harness: explicit transitions first, '.' only if none matches.
+func (n *NFA) Step(live uint64, r rune) uint64 {
+	var explicit, dots uint64
+	for _, t := range n.chr {
+		if live>>uint(t.from)&1 == 1 && t.lo <= r && r <= t.hi {
+			explicit |= n.eclose(t.to)
+		}
+	}
+	for _, t := range n.dot {
+		if live>>uint(t[0])&1 == 1 {
+			dots |= n.eclose(t[1])
+		}
+	}
+	if explicit != 0 {
+		return explicit
+	}
+	return dots
+}
+
+// Best: index of the best accepting pattern of the live set, or -1.
+func (n *NFA) Best(live uint64) int {
+	best := -1
+	for s, p := range n.accept {
+		if live>>uint(s)&1 == 1 && (best < 0 || p < best) {
+			best = p
+		}
+	}
+	return best
+}
+
+// RepRunes: one representative per elementary interval of the rune space induced by all
+// transition boundaries.
+func (n *NFA) RepRunes() []rune {
+	set := map[rune]bool{0: true}
+	for _, t := range n.chr {
+		set[t.lo] = true
+		if t.hi+1 <= 0x10FFFF {
+			set[t.hi+1] = true
+		}
+	}
+	var out []rune
+	for r := range set {
+		out = append(out, r)
+	}
+	sortRunes(out)
+	return out
+}
+
+func sortRunes(a []rune) {
+	for i := 1; i < len(a); i++ {
+		for j := i; j > 0 && a[j] < a[j-1]; j-- {
+			a[j], a[j-1] = a[j-1], a[j]
+		}
+	}
 }
